@@ -527,6 +527,48 @@ def stub_bodies(text):
     return ''.join(out)
 
 
+def inject_vacuity_probe(text):
+    """insert `proof { assert(false); }` right after the opening brace of every exec fn body (vacuity guard): each of
+    these assertions MUST fail; one that verifies means the function's precondition / an assumption is contradictory"""
+    toks = lex(text)
+    edits = []
+    skip_until = -1
+    for i_fn in find_fns(toks):
+        if toks[i_fn].start < skip_until:
+            continue
+        # skip spec / proof fns
+        j = i_fn - 1
+        quals = []
+        while j >= 0:
+            t = toks[j]
+            if not t.code:
+                j -= 1
+                continue
+            if t.text in ('pub', 'crate', '(', ')', 'const', 'unsafe', 'super', 'in', 'open', 'closed', 'spec', 'proof', 'broadcast', 'uninterp'):
+                quals.append(t.text)
+                j -= 1
+                continue
+            break
+        if 'spec' in quals or 'proof' in quals:
+            continue
+        try:
+            po, pc, arrow, bo, bc = _fn_parts(toks, i_fn)
+        except Exception:
+            continue
+        if bo is None:
+            continue
+        edits.append(toks[bo].end)
+        skip_until = toks[bc].end
+    out = []
+    pos = 0
+    for e in sorted(edits):
+        out.append(text[pos:e])
+        out.append(' proof { assert(false); } ')
+        pos = e
+    out.append(text[pos:])
+    return ''.join(out), len(edits)
+
+
 def allow_no_decreases(text):
     toks = lex(text)
     edits = []
@@ -798,6 +840,12 @@ def build(entries, verify_units, repo=None, extra_false_ensures=False, no_body_h
         for L in located:
             log = {}
             new_code = normalize_item(L.text, log)
+            if e.opts.get('vis'):
+                # R12: `pub fn` methods of a pub(crate) type: Verus rejects contracts naming fields of a less visible type;
+                # the visibility keyword is lowered to that of the type (no effect on the code)
+                new_code, nvis = re.subn(r'^(\s*)pub fn\b', r'\1%s fn' % e.opts['vis'], new_code, count=1)
+                if nvis:
+                    log['R12.method_visibility'] = log.get('R12.method_visibility', 0) + 1
             if e.opts.get('rename'):
                 # a second, differently named copy of the same item (e.g. a safety-only contract next to an assumed functional one)
                 old_name, new_name = e.opts['rename'].split('->')
@@ -828,6 +876,9 @@ def build(entries, verify_units, repo=None, extra_false_ensures=False, no_body_h
                     hoist = [substitute(h, L.bindings) for h in hoist]
                 if not verify:
                     text = stub_bodies(text)
+                elif extra_false_ensures and not e.locator.startswith(('struct', 'enum', 'include')):
+                    text, nprobe = inject_vacuity_probe(text)
+                    em.vacuity_probes = getattr(em, 'vacuity_probes', 0) + nprobe
                 if L.wrap:
                     w = L.wrap
                     if e.inst:
